@@ -56,6 +56,24 @@ Theorem C14_get_exists_attr_iter_eq : forall g w listing c o hits,
 Proof. exact step_ok. Qed.
 Print Assumptions C14_get_exists_attr_iter_eq.
 
+(* getReader (the reader returned by Get), consumed to EOF in reads of any chunk size > 0,
+   for every object and every MaxCacheableSize >= 0: the content key is written exactly when
+   the whole object fits, and then with the WHOLE object (never a prefix); without any
+   assumption on the limit, what is written is either nothing or the whole object. *)
+Theorem C14_get_reader_stores_whole : forall chunk maxsize, 0 < chunk ->
+  forall fuel rest b, (length rest < fuel)%nat -> blen b <= maxsize ->
+  get_reader fuel rest chunk maxsize (Some b)
+  = (if blen b + blen rest <=? maxsize then Some (b ++ rest) else None).
+Proof. exact get_reader_ok. Qed.
+Print Assumptions C14_get_reader_stores_whole.
+
+Theorem C14_get_reader_never_prefix : forall chunk maxsize, 0 < chunk ->
+  forall fuel rest b, (length rest < fuel)%nat ->
+  get_reader fuel rest chunk maxsize (Some b) = None
+  \/ get_reader fuel rest chunk maxsize (Some b) = Some (b ++ rest).
+Proof. exact get_reader_whole. Qed.
+Print Assumptions C14_get_reader_never_prefix.
+
 (* Histories: any sequence of reads, each with its own arbitrary loss pattern, starting
    from any truthful cache (in particular the empty one): every answer equals the
    underlying bucket's. *)
@@ -98,3 +116,11 @@ Proof.
   split; [apply cache_ok_nil|]. split; [reflexivity|].
   repeat constructor; simpl; try discriminate.
 Qed.
+
+(* a 12-byte object, limit 5, read 4 bytes at a time: nothing is stored; limit 12: the whole object *)
+Example C14_get_reader_nonvacuous :
+  get_reader 13 [10; 11; 12; 13; 14; 15; 16; 17; 18; 19; 20; 21]%N 4 5 (Some []) = None
+  /\ get_reader 13 [10; 11; 12; 13; 14; 15; 16; 17; 18; 19; 20; 21]%N 4 12 (Some [])
+     = Some [10; 11; 12; 13; 14; 15; 16; 17; 18; 19; 20; 21]%N
+  /\ res_of (step {| c_S := 4; c_M := 0; c_maxsize := 5 |} ex_w [] (OGet 0 4) [] []) = reference ex_w (OGet 0 4) [].
+Proof. repeat split; vm_compute; reflexivity. Qed.
